@@ -11,7 +11,8 @@ EXPLANATION = (
     "of stored values must use wrapping/checked/saturating forms), modulo a reasoned exception table; (R2) every "
     "read-only lookup of a PropertyColumn that reads the hot `values` part also consults the `compressed` part; "
     "(R3) to_bytes / from_bytes of each codec write and read the same sequence of fixed-width little-endian integer "
-    "types. Losslessness in general is not decided.")
+    "types. (R4) AdjacencyChunk::compress feeds both codecs from the same reordered sequence; (R5) casts to 8/16-bit integers are bounded by a mask, remainder, bit count, narrower source or dominating range check; (R6) clamping arithmetic on payload values only in encoders with a sortedness precondition whose callers establish it, and the signed delta codec uses the modular pair wrapping_sub / wrapping_add. R1 and R5 also run on the succinct-indexes configuration, which no workspace crate enables. "
+    "Losslessness in general is not decided.")
 ASSUMPTIONS = ["index / length arithmetic on usize and counters incremented by constants are not payload arithmetic",
                "shift amounts are bit widths in 0..=64 guarded at their sites; shifts are not checked"]
 
